@@ -1,5 +1,7 @@
 package mocker
 
+import "errors"
+
 // C02 (builder/mocker layer): after Reset or Cancel the function's entry is byte for byte
 // the pristine one again, for histories through a retained mocker handle and through
 // several builders.
@@ -98,4 +100,60 @@ func VC_C02_two_builders() {
 	b2.Reset()
 	vAllPristine(snap, "C02.builders.second-reset-is-noop")
 	verifReached("C02.builders")
+}
+
+// ---- unexported methods of a struct in another package, addressed by name ----
+
+type vC02T struct{ n int }
+
+func (t *vC02T) first(i int) int  { return i + 1 }
+func (t *vC02T) second(i int) int { return i + 2 }
+
+func vC02CbM1(t *vC02T, i int) int { return i + 1000 }
+func vC02CbM2(t *vC02T, i int) int { return i + 2000 }
+
+// the symbol lookup itself is the subject of C10: exact address for the two names, an
+// error for every other name
+//
+//verif:stub github.com/tencent/goom/internal/unexports2.FindFuncByName
+func vC02FindFuncByName(name string) (uintptr, error) {
+	switch name {
+	case "other/pkg.(*vC02T).first":
+		return verifFuncCode((*vC02T).first), nil
+	case "other/pkg.(*vC02T).second":
+		return verifFuncCode((*vC02T).second), nil
+	}
+	return 0, errors.New("func not found: " + name)
+}
+
+// VC_C02_pkg_struct: two methods of an unexported struct of another package are mocked
+// through separate Pkg(...).ExportStruct(...) lookups (or one chained lookup); Reset
+// restores both entries byte for byte, a second Reset changes nothing. (No native
+// cross-validation: natively the real symbol lookup runs, which is C10's subject.)
+//
+//verif:opt xcheck=off
+func VC_C02_pkg_struct() {
+	vEnv()
+	vPristine((*vC02T).first)
+	vPristine((*vC02T).second)
+	verifApart(verifFuncCode((*vC02T).first), verifFuncCode((*vC02T).second), 32)
+	snap := verifImgSnap()
+	b := Create()
+	if verifBool("separateLookups") {
+		b.Pkg("other/pkg").ExportStruct("*vC02T").Method("first").Apply(vC02CbM1)
+		b.Pkg("other/pkg").ExportStruct("*vC02T").Method("second").Apply(vC02CbM2)
+	} else {
+		s := b.Pkg("other/pkg").ExportStruct("*vC02T")
+		s.Method("first").Apply(vC02CbM1)
+		s.Method("second").Apply(vC02CbM2)
+	}
+	verifAssert(vDiverted((*vC02T).first), "C02.pkg-struct.first-mocked")
+	verifAssert(vDiverted((*vC02T).second), "C02.pkg-struct.second-mocked")
+	b.Reset()
+	vEntryPristine(snap, (*vC02T).first, "C02.pkg-struct.reset-restores-first")
+	vEntryPristine(snap, (*vC02T).second, "C02.pkg-struct.reset-restores-second")
+	vAllPristine(snap, "C02.pkg-struct.reset-restores-image")
+	b.Reset()
+	vAllPristine(snap, "C02.pkg-struct.second-reset-is-noop")
+	verifReached("C02.pkg-struct")
 }
